@@ -157,10 +157,10 @@ def _t5(ctx, ck) -> None:
     sub = type(ck)(ck.pid)
     c14.run(ctx, sub)
     for o in sub.obs:
-        if o.rule.endswith(('E2', 'E3', 'E4')):
+        if o.rule.endswith(('E2', 'E3', 'E4', 'E7')):
             o.rule = f'{ck.pid}.T5'
             ck.obs.append(o)
-    ck.floor('T5', sum(1 for o in ck.obs if o.rule.endswith('T5')), 8, 'einsum transpose obligations')
+    ck.floor('T5', sum(1 for o in ck.obs if o.rule.endswith('T5')), 5, 'einsum transpose obligations')
 
 
 def _ret(fn):
